@@ -20,6 +20,7 @@ import (
 	"testing"
 
 	"github.com/gagliardetto/solana-go"
+	"github.com/ipfs/go-cid"
 	"github.com/klauspost/compress/zstd"
 	"github.com/mr-tron/base58"
 	"github.com/rpcpool/yellowstone-faithful/compactindexsized"
@@ -69,12 +70,13 @@ type rpcWorld struct {
 
 func rpcBuildWorld(t *testing.T, a []aEpoch, seed int64) (*rpcWorld, string) {
 	w := &rpcWorld{sigID: map[solana.Signature]int{}, hashID: map[string][2]int64{}, truthTx: map[int]*fixture.TxTruth{}}
+	cache := vCache(t) // one cache shared by every epoch, as in the server
 	for i, ep := range a {
 		l, err := vBuild(t, ep.spec(seed+int64(i)*17, 2+i%4), false)
 		if err != nil {
 			return nil, err.Error()
 		}
-		e, err := NewEpochFromConfig(l.cfg, vCliCtx(), vCache(t), nil)
+		e, err := NewEpochFromConfig(l.cfg, vCliCtx(), cache, nil)
 		if err != nil {
 			return nil, "NewEpochFromConfig: " + err.Error()
 		}
@@ -445,6 +447,29 @@ func (w *rpcWorld) blockTime(h func(body string) (int, string, any), multi *Mult
 	return c
 }
 
+// getNode: Epoch.GetNodeByCid for a CID of epoch i (stored: section index >= 0) or an absent CID
+func (w *rpcWorld) getNode(i int, c cid.Cid, section int, alias bool) rpcCall {
+	call := rpcCall{Op: "getNode", Proto: "epoch", Slot: int64(w.eps[i].built.Spec.Epoch), Sig: section, Sigs: []int{}, Alias: alias}
+	var got []byte
+	var err error
+	if p := vt.Guard(func() { got, err = w.eps[i].epoch.GetNodeByCid(context.Background(), c) }); p != "" {
+		call.Status, call.Detail = "panic", p
+		return call
+	}
+	if err != nil {
+		call.Status, call.Detail = "notfound", err.Error()
+		if len(call.Detail) > 120 {
+			call.Detail = call.Detail[:120]
+		}
+		return call
+	}
+	call.Status = "ok"
+	if section >= 0 {
+		call.Txsame = bytes.Equal(got, w.eps[i].built.Sections[section].Data)
+	}
+	return call
+}
+
 func (w *rpcWorld) multi(loadedIdx []int, conc int) (*MultiEpoch, []uint64) {
 	multi := NewMultiEpoch(&Options{EpochSearchConcurrency: conc})
 	var nums []uint64
@@ -643,6 +668,35 @@ func TestVerifC03(t *testing.T) {
 				absentSlots = append(absentSlots, absSlot{s, true})
 			}
 		}
+		// absent CIDs per epoch: random ones and ones aliasing a stored CID in the cid-to-offset-and-size index
+		type absCid struct {
+			c     cid.Cid
+			alias bool
+		}
+		absentCids := map[int][]absCid{}
+		for i, l := range w.eps {
+			storedCid := map[string]bool{}
+			for _, sec := range l.built.Sections {
+				storedCid[string(sec.Cid.Bytes())] = true
+			}
+			r2 := rand.New(rand.NewSource(rng.Int63()))
+			mk := func() []byte {
+				b := make([]byte, 36)
+				copy(b, l.built.Sections[0].Cid.Bytes()[:4]) // cidv1 dag-cbor sha2-256 prefix
+				r2.Read(b[4:])
+				return b
+			}
+			for k := 0; k < 2; k++ {
+				if _, c, err := cid.CidFromBytes(mk()); err == nil {
+					absentCids[i] = append(absentCids[i], absCid{c, false})
+				}
+			}
+			for _, kb := range rpcAliases(l.paths.CidToOffsetAndSize, storedCid, func(int) []byte { return mk() }, 3_000_000, 2) {
+				if _, c, err := cid.CidFromBytes(kb); err == nil {
+					absentCids[i] = append(absentCids[i], absCid{c, true})
+				}
+			}
+		}
 		// slots of epochs that are not in the archive at all
 		absentSlots = append(absentSlots, absSlot{900*432000 + 5, false})
 		subs := rpcSubsets(len(a.Arch))
@@ -653,35 +707,57 @@ func TestVerifC03(t *testing.T) {
 			handler := newMultiEpochHandler(multi, nil)
 			h := func(body string) (int, string, any) { return vCall(handler, body) }
 			o := rpcObs{Kind: "rpc", Case: ci + 1, Arch: a.Arch, Loaded: nums, Conc: conc}
-			for k, as := range absentSlots {
-				c1 := w.jsonGetBlock(h, as.slot, rpcEncodings[k%4])
-				c2 := w.grpcGetBlock(multi, as.slot)
-				c3 := w.blockTime(h, multi, as.slot, []string{"json", "grpc"}[k%2])
-				c1.Alias, c2.Alias, c3.Alias = as.alias, as.alias, as.alias
-				o.Calls = append(o.Calls, c1, c2, c3)
-			}
-			// archived slots / signatures of epochs that are NOT loaded are absent keys as well
-			for i, l := range w.eps {
-				isLoaded := false
-				for _, j := range sub {
-					isLoaded = isLoaded || i == j
-				}
-				if isLoaded {
-					continue
-				}
-				for _, bt := range l.built.Blocks {
-					o.Calls = append(o.Calls, w.jsonGetBlock(h, bt.Spec.Slot, "base64"), w.grpcGetBlock(multi, bt.Spec.Slot))
-					for _, tt := range bt.Txs {
-						o.Calls = append(o.Calls, w.jsonGetTransaction(h, tt.Sig, tt.Spec.SigID, "base64"), w.grpcGetTransaction(multi, tt.Sig, tt.Spec.SigID))
+			for phase := 0; phase < 2; phase++ {
+				if phase == 1 {
+					// warm every cache with the stored objects of the loaded epochs, then ask for the absent keys again
+					for _, i := range sub {
+						for si, sec := range w.eps[i].built.Sections {
+							o.Calls = append(o.Calls, w.getNode(i, sec.Cid, si, false))
+						}
+						for _, bt := range w.eps[i].built.Blocks {
+							w.jsonGetBlock(h, bt.Spec.Slot, "base64")
+							w.grpcGetBlock(multi, bt.Spec.Slot)
+							for _, tt := range bt.Txs {
+								w.grpcGetTransaction(multi, tt.Sig, tt.Spec.SigID)
+							}
+						}
 					}
 				}
-			}
-			for k, as := range absent {
-				id := 1_000_000 + k
-				c1 := w.jsonGetTransaction(h, as.sig, id, rpcEncodings[k%4])
-				c2 := w.grpcGetTransaction(multi, as.sig, id)
-				c1.Alias, c2.Alias = as.alias, as.alias
-				o.Calls = append(o.Calls, c1, c2)
+				for _, i := range sub {
+					for _, ac := range absentCids[i] {
+						o.Calls = append(o.Calls, w.getNode(i, ac.c, -1, ac.alias))
+					}
+				}
+				for k, as := range absentSlots {
+					c1 := w.jsonGetBlock(h, as.slot, rpcEncodings[k%4])
+					c2 := w.grpcGetBlock(multi, as.slot)
+					c3 := w.blockTime(h, multi, as.slot, []string{"json", "grpc"}[k%2])
+					c1.Alias, c2.Alias, c3.Alias = as.alias, as.alias, as.alias
+					o.Calls = append(o.Calls, c1, c2, c3)
+				}
+				// archived slots / signatures of epochs that are NOT loaded are absent keys as well
+				for i, l := range w.eps {
+					isLoaded := false
+					for _, j := range sub {
+						isLoaded = isLoaded || i == j
+					}
+					if isLoaded {
+						continue
+					}
+					for _, bt := range l.built.Blocks {
+						o.Calls = append(o.Calls, w.jsonGetBlock(h, bt.Spec.Slot, "base64"), w.grpcGetBlock(multi, bt.Spec.Slot))
+						for _, tt := range bt.Txs {
+							o.Calls = append(o.Calls, w.jsonGetTransaction(h, tt.Sig, tt.Spec.SigID, "base64"), w.grpcGetTransaction(multi, tt.Sig, tt.Spec.SigID))
+						}
+					}
+				}
+				for k, as := range absent {
+					id := 1_000_000 + k
+					c1 := w.jsonGetTransaction(h, as.sig, id, rpcEncodings[k%4])
+					c2 := w.grpcGetTransaction(multi, as.sig, id)
+					c1.Alias, c2.Alias = as.alias, as.alias
+					o.Calls = append(o.Calls, c1, c2)
+				}
 			}
 			out.Emit(o)
 		}
